@@ -64,7 +64,7 @@ PROPS = {
         "technique": "Lean 4 proof (decode(encode v) = v for all well-formed v, per layer; finite bit facts by decide +kernel) + differential correspondence on spec-conforming encodings",
         "ref": "§5 C07",
         "proofs": ["Bmc.Proofs.C07.Basic", "Bmc.Proofs.C07.Core", "Bmc.Proofs.C07.Sess", "Bmc.Proofs.C07.Sdr", "Bmc.Proofs.C07.Setup", "Bmc.Proofs.C07.Dcmi", "Bmc.Proofs.C07.Api"],
-        "scenarios": ["dec", "api"],
+        "scenarios": ["dec", "api", "sdr"],
         "rule": "as for C05 (scenario dec); class P = inputs produced by the per-layer generator of specification-conforming encodings (reserved bits zero, every optional-tail form) and inputs the specification demands be rejected (below the minimum length, corrupted checksums, excessive length fields); everything else is class M."
           " api: every high-level call x {3 suites in session, session-less}: type-directed arguments (0, max, walking bits, out-of-width, random) x reply scripts {conforming body in every optional-tail form, non-zero code with / without body, temporary code then final, reply to another command first, lost, empty / truncated at every length / extended / random body} + all ordered pairs of calls on ONE connection with the second reply shorter than the first; class P = conforming scripts; model-independent verdict: result = fresh decode by the real decoder of the first acceptable final response (error unless code 00h), every transmitted datagram opens under the reference BMC / parser to the specification's command with the caller's arguments.",
         "modelled": ["all DecodeFromBytes methods are hand models tied by correspondence"],
@@ -77,7 +77,7 @@ PROPS = {
         "technique": "Lean 4 proof (refinement theorems universally quantified over the receiver state; loop refinement) + differential reuse-vs-fresh correspondence",
         "ref": "§5 C17",
         "proofs": ["Bmc.Proofs.C17.Basic", "Bmc.Proofs.C17.Core", "Bmc.Proofs.C17.Sess", "Bmc.Proofs.C17.Sdr", "Bmc.Proofs.C17.Setup", "Bmc.Proofs.C17.Dcmi"],
-        "scenarios": ["dec", "api", "send", "slsend"],
+        "scenarios": ["dec", "api", "send", "slsend", "sdr"],
         "rule": "send / slsend (connection-level clause: the same command gives the same datagrams and result whatever replies - authentic, forged, mis-signed, truncated - the session's layers, hash and buffers saw before; exhaustive reply scripts, see C10). as for C05 (scenario dec): every op with an earlier input decodes it into the same receiver first; all ordered pairs of a pool of 8 (thorough 24) valid encodings per layer plus layer-specific pairs with differing optional tails; verdict `stale` when the reused result differs from a fresh one."
           " api: every high-level call x {3 suites in session, session-less}: type-directed arguments (0, max, walking bits, out-of-width, random) x reply scripts {conforming body in every optional-tail form, non-zero code with / without body, temporary code then final, reply to another command first, lost, empty / truncated at every length / extended / random body} + all ordered pairs of calls on ONE connection with the second reply shorter than the first; class P = conforming scripts; model-independent verdict: result = fresh decode by the real decoder of the first acceptable final response (error unless code 00h), every transmitted datagram opens under the reference BMC / parser to the specification's command with the caller's arguments.",
         "modelled": ["all DecodeFromBytes methods are hand models tied by correspondence"],
